@@ -204,6 +204,11 @@ def _phase(draw, ids, in_subtest, strict, simple=False):
   node = {'t': 'phase', 'id': pid, 'o': o, 'm': meas, 'd': diags, 's': script}
   if cv:
     node['cv'] = cv
+  # some measurements are dimensioned (set at one coordinate; validated at phase end); not the ones with a conditional
+  # validator or a value kind that relies on the validator raising at the assignment
+  dims = [name for name in meas if name not in cv and not any(b['sets'].get(name) in ('x', 'px') for b in script) and draw(st.integers(0, 4)) == 0]
+  if dims:
+    node['dims'] = dims
   return node
 
 
@@ -508,6 +513,9 @@ def _mk_body(node, ctx, htf):
         time.sleep(0.002)
     b = script[min(inv, len(script) - 1)]
     for name, v in b['sets'].items():
+      if name in (node.get('dims') or ()):
+        test.measurements[name][inv] = 5 if v == 'p' else 50
+        continue
       if v in ('x', 'px'):
         if v == 'px':
           test.measurements[name] = 5
@@ -615,6 +623,9 @@ def build_phase(node, ctx, htf, plug_map=None):
       _members = [result_enum().R0, result_enum().R1, result_enum().R2, result_enum().R3]
       ms = []
       for name in node['m']:
+        if name in (node.get('dims') or ()):
+          ms.append(htf.Measurement(name).with_dimensions('x').with_validator(_dim_rows_in_range))
+          continue
         mm = htf.Measurement(name).in_range(0, 10)
         cv = (node.get('cv') or {}).get(name)
         if cv is not None:   # conditional validator: the 'pass' value 5 fails it when diagnosis result R<cv> exists at phase start
@@ -664,6 +675,10 @@ def build_phase(node, ctx, htf, plug_map=None):
 
 
 MONITOR_PROBE_CALLS = [0]
+
+
+def _dim_rows_in_range(rows):
+  return all(0 <= r[-1] <= 10 for r in rows)
 
 
 def _monitor_probe(test):
